@@ -124,14 +124,17 @@ func (m *recMgr) upstreamServers() map[string][]string {
 	}
 	return out
 }
+// CreateConfig / CreateStreamConfig report, like LocalManager, whether the content of the file changed.
 func (m *recMgr) CreateConfig(name string, content []byte) bool {
+	old, ok := m.conf[name]
 	m.conf[name] = string(content)
-	return true
+	return !ok || old != string(content)
 }
 func (m *recMgr) DeleteConfig(name string) { delete(m.conf, name) }
 func (m *recMgr) CreateStreamConfig(name string, content []byte) bool {
+	old, ok := m.stream[name]
 	m.stream[name] = string(content)
-	return true
+	return !ok || old != string(content)
 }
 func (m *recMgr) DeleteStreamConfig(name string) { delete(m.stream, name) }
 
@@ -424,6 +427,22 @@ func genDyn(r *vh.Rng, id int) Case {
 		for k := 1 + r.Intn(2); k > 0; k-- {
 			c.Backends = append(c.Backends, c.Backends[0])
 		}
+		// ... that do NOT all depend on the same endpoints, so that an event changes the file of a
+		// proper subset only (stable / canary sub-selectors, one of them in cluster-IP mode, other
+		// ports of the Service), at any position
+		if r.Chance(2, 3) {
+			for k := range c.Backends {
+				bk := &c.Backends[k]
+				switch x := r.Intn(6); {
+				case x < 2 && (bk.Kind == "vs" || bk.Kind == "vsr"):
+					bk.Subsel = [][2]string{{"version", vh.Pick(r, []string{"v1", "v2"})}}
+				case x == 2 && bk.Kind != "ts":
+					bk.ClusterIP = true
+				case x == 3:
+					bk.PortNum = s.Ports[r.Intn(len(s.Ports))].Port
+				}
+			}
+		}
 	}
 	// NGINX Plus: the API fails for the upstream of one (sometimes two) of the resources
 	if c.Plus && len(c.Backends) > 1 && r.Chance(1, 2) {
@@ -595,6 +614,47 @@ func dynCorpus() []Case {
 				}
 				cs = append(cs, Case{Fam: "dyn", Class: "dyn-corpus-api-failure", Plus: true, Svcs: []Svc{svc(8080)}, Slices: []Slice{sl(8080)},
 					Backends: bs, APIFail: []int{f}, Dyn: &DynSpec{Op: "ready", Svcs2: []Svc{svc(8080)}, Slices2: []Slice{sl2}}})
+			}
+		}
+	}
+	// an event that changes the file of ONE of three resources of a kind on the Service -- the first,
+	// the middle, the last one (VirtualServers: stable / canary sub-selectors and one in cluster-IP
+	// mode; TransportServers: ports of the Service with one slice per port), OSS and Plus
+	pods := []Pod{{Ns: NS, Name: "web-0", IP: "10.0.0.1", Labels: [][2]string{{"app", "web"}, {"version", "v1"}}},
+		{Ns: NS, Name: "web-1", IP: "10.0.0.2", Labels: [][2]string{{"app", "web"}, {"version", "v2"}}},
+		{Ns: NS, Name: "web-2", IP: "10.0.0.3", Labels: [][2]string{{"app", "web"}, {"version", "v2"}}}}
+	slv := func(r2, r3 int) Slice {
+		return Slice{Ns: NS, Name: "web-s0", Svc: "web", Ports: []SlicePort{{Name: "http", HasNum: true, Num: 8080, Proto: tcp}},
+			Eps: []Endp{{Addrs: []string{"10.0.0.1"}, Ready: 1, Ref: "web-0"}, {Addrs: []string{"10.0.0.2"}, Ready: r2, Ref: "web-1"},
+				{Addrs: []string{"10.0.0.3"}, Ready: r3, Ref: "web-2"}}}
+	}
+	v1 := Backend{Kind: "vs", Svc: "web", PortNum: 80, Subsel: [][2]string{{"version", "v1"}}}
+	v2 := Backend{Kind: "vs", Svc: "web", PortNum: 80, Subsel: [][2]string{{"version", "v2"}}}
+	cip := Backend{Kind: "vs", Svc: "web", PortNum: 80, ClusterIP: true}
+	for _, bs := range [][]Backend{{v2, v1, cip}, {v1, v2, cip}, {v1, cip, v2}, {v2, v1}, {v1, v2}} {
+		for _, plus := range []bool{false, true} {
+			cs = append(cs, Case{Fam: "dyn", Class: "dyn-corpus-subset-of-resources", Plus: plus, Svcs: []Svc{svc(8080)}, Slices: []Slice{slv(1, 0)}, Pods: pods,
+				Backends: bs, Dyn: &DynSpec{Op: "ready", Svcs2: []Svc{svc(8080)}, Slices2: []Slice{slv(0, 1)}}})
+		}
+	}
+	svc2 := Svc{Ns: NS, Name: "web", Type: "ClusterIP", ClusterIP: "10.96.0.1", Selector: [][2]string{{"app", "web"}},
+		Ports: []SvcPort{{Name: "http", Port: 80, Proto: tcp, TKind: 1, TNum: 8080}, {Name: "alt", Port: 81, Proto: tcp, TKind: 1, TNum: 8081},
+			{Name: "adm", Port: 82, Proto: tcp, TKind: 1, TNum: 8082}}}
+	pslice := func(name, pname string, num int, addr string) Slice {
+		return Slice{Ns: NS, Name: name, Svc: "web", Ports: []SlicePort{{Name: pname, HasNum: true, Num: num, Proto: tcp}},
+			Eps: []Endp{{Addrs: []string{addr}, Ready: 1, Ref: name}}}
+	}
+	for _, kind := range []string{"ts", "vs"} {
+		for _, ports := range [][]int{{80, 81, 82}, {81, 80, 82}, {81, 82, 80}, {80, 81}, {81, 80}} {
+			for _, plus := range []bool{false, true} {
+				var bs []Backend
+				for _, p := range ports {
+					bs = append(bs, Backend{Kind: kind, Svc: "web", PortNum: p})
+				}
+				cs = append(cs, Case{Fam: "dyn", Class: "dyn-corpus-subset-of-resources", Plus: plus, Svcs: []Svc{svc2},
+					Slices:   []Slice{pslice("web-p80", "http", 8080, "10.0.0.1"), pslice("web-p81", "alt", 8081, "10.0.0.1"), pslice("web-p82", "adm", 8082, "10.0.0.1")},
+					Backends: bs, Dyn: &DynSpec{Op: "addr", Svcs2: []Svc{svc2},
+						Slices2: []Slice{pslice("web-p80", "http", 8080, "10.0.0.9"), pslice("web-p81", "alt", 8081, "10.0.0.1"), pslice("web-p82", "adm", 8082, "10.0.0.1")}}})
 			}
 		}
 	}
